@@ -52,18 +52,22 @@ def run(c):
     r = c.rng("raw")
     rc = []
     for i in range(120 if c.quick() else 1200):
-        ops, queued = [], 0
+        ops, queued, sizes = [], 0, []
         for _ in range(r.randint(2, 14)):
-            if queued == 0 or r.random() < 0.5:
-                n = r.choice([0, 1, 10, 4095, 4096, 4097, 20000, 65536])
+            n = r.choice([0, 1, 10, 4095, 4096, 4097, 20000, 65536])
+            # the harness sends and receives in one thread: what is queued must fit the socket buffer, or the send would block for ever
+            fits = sum(sizes) + n + 2048 * (len(sizes) + 1) <= 100000
+            if queued == 0 or (fits and r.random() < 0.5):
                 k = r.choice([0, 0, 1, 2, 3, 16] + ([253] if r.random() < 0.1 else []))
                 bad = r.random() < 0.08
                 ops.append({"op": "send", "n": n, "fds": k, "salt": len(ops), "cred": r.random() < 0.3, "bad_fd": bad})
                 if not bad:
                     queued += 1
+                    sizes.append(n)
             else:
                 ops.append({"op": "recv", "buf": r.choice([1, 10, 4096, 32768, 70000]), "salt": None})
                 queued -= 1
+                sizes.pop(0)
         while queued > 0:
             ops.append({"op": "recv", "buf": r.choice([10, 4096, 70000]), "salt": None})
             queued -= 1
